@@ -569,6 +569,8 @@ type Lemma struct {
 	Ensures  []*SExpr
 	Just     string // "lean <name>" | "trusted <reason>" | "smt"
 	Pkg      string
+	Proof    []*GhostStmt
+	Props    []string
 }
 
 type TableSpec struct {
@@ -595,7 +597,7 @@ func NewSpecs() *Specs {
 var clauseKeywords = map[string]bool{"spec": true, "pred": true, "ghost": true, "lemma": true, "func": true, "iface": true,
 	"extern": true, "requires": true, "ensures": true, "modifies": true, "loop": true, "at": true, "observe": true,
 	"row": true, "exit": true, "entry": true, "props": true, "inline": true, "trusted": true, "table": true, "fact": true, "pure": true,
-	"params": true, "results": true, "opt": true, "just": true}
+	"params": true, "results": true, "opt": true, "just": true, "proof": true}
 
 // readSpecLines extracts the //@ lines (or all non-comment lines for .sxc files) and joins continuation lines.
 func readSpecLines(path string) ([]string, error) {
@@ -1011,6 +1013,15 @@ func (sp *Specs) LoadFile(path, pkgRel string) error {
 				return fail(ln, fmt.Errorf("just outside lemma"))
 			}
 			curLemma.Just = rest
+		case "proof":
+			if curLemma == nil {
+				return fail(ln, fmt.Errorf("proof outside lemma"))
+			}
+			stmts, err := parseGhostStmts(rest, nil)
+			if err != nil {
+				return fail(ln, err)
+			}
+			curLemma.Proof = append(curLemma.Proof, stmts...)
 		case "table":
 			curTable = &TableSpec{Global: rest, Pkg: pkgRel}
 			sp.Tables = append(sp.Tables, curTable)
@@ -1040,7 +1051,9 @@ func (sp *Specs) LoadFile(path, pkgRel string) error {
 			curLemma, curTable = nil, nil
 		case "props":
 			ps := strings.Fields(strings.ReplaceAll(rest, ",", " "))
-			if cur != nil {
+			if curLemma != nil {
+				curLemma.Props = ps
+			} else if cur != nil {
 				cur.Props = ps
 			} else if curTable != nil {
 				curTable.Props = ps
